@@ -264,11 +264,61 @@ func (w *W) history(i int, r *vlib.Rand) {
 		}
 	}
 
+	// Serialized snapshots handed out earlier belong to the caller: the slices themselves are
+	// kept (not copies) and must still hold the same bytes after anything done later, and
+	// writing into one must not reach the counter it came from.
+	type heldSnap struct {
+		ref, want []byte
+		who       string
+	}
+	var held []heldSnap
+	hold := func(j int) {
+		b := slots[j].h.GetBytes()
+		held = append(held, heldSnap{b, append([]byte(nil), b...), fmt.Sprintf("c%d.GetBytes() taken at log line %d", j, len(log))})
+		note("c%d: snapshot kept by the caller", j)
+		c.Count("snapshots_held", 1)
+	}
+	checkHeld := func() {
+		for x := range held {
+			if !bytes.Equal(held[x].ref, held[x].want) {
+				d := det()
+				d["snapshot"], d["had"], d["has_now"] = held[x].who, vlib.Hex(held[x].want), vlib.Hex(held[x].ref)
+				c.Fail("GetBytes:result-altered-later", fmt.Sprintf("p=%d: the bytes returned by %s changed after later calls on the counters (the returned slice is not the caller's own)", p, held[x].who), d)
+				held[x].want = append([]byte(nil), held[x].ref...)
+			}
+			c.Count("held_snapshot_checks", 1)
+		}
+	}
+	scribble := func() {
+		if len(held) == 0 {
+			return
+		}
+		x := r.Intn(len(held))
+		for y := range held[x].ref {
+			held[x].ref[y] = 0xA5
+		}
+		held[x].want = append([]byte(nil), held[x].ref...)
+		note("caller overwrites its snapshot (%s)", held[x].who)
+		c.Count("snapshots_scribbled", 1)
+		for j := range slots { // no counter may have been reached by that write
+			w.observe("GetBytes:result-aliases-state", slots[j].h, slots[j].md, 0, 0, det)
+		}
+	}
+
 	steps := r.Range(6, 36)
 	obsPct := []int{30, 50, 70}[r.Intn(3)]
 	for st := 0; st < steps; st++ {
+		checkHeld()
 		j := r.Intn(k)
 		s := slots[j]
+		if r.Intn(10) == 0 {
+			hold(j)
+			continue
+		}
+		if r.Intn(25) == 0 {
+			scribble()
+			continue
+		}
 		if r.Intn(100) < obsPct {
 			observe(j)
 			continue
@@ -403,6 +453,7 @@ func (w *W) history(i int, r *vlib.Rand) {
 	r.Shuffle(len(perm), func(x, y int) { perm[x], perm[y] = perm[y], perm[x] })
 	for _, j := range perm {
 		observe(j)
+		checkHeld()
 	}
 	c.Count("histories", 1)
 	c.Eval(int64(len(log)))
